@@ -20,3 +20,44 @@ package observer
 //@   ensures forall j int :: 0 <= j && j < len(fields) ==> as(result, type(*contextObserver)).context[len(old(co.context)) + j] == old(fields[j])
 //@   ensures *co == old(*co)
 //@   ensures type_frame(type(zapcore.Field))
+
+//@ guarded zaptest/observer.ObservedLogs.logs by mu props C09
+
+//@ func (*zaptest/observer.ObservedLogs).Len
+//@   props C09
+//@   flags nopanic
+//@   requires o != nil && !held(&o.mu)
+//@   modifies held(&o.mu)
+//@   ensures !held(&o.mu) && result == len(o.logs)
+
+//@ func (*zaptest/observer.ObservedLogs).All
+//@   props C09
+//@   flags nopanic
+//@   requires o != nil && !held(&o.mu)
+//@   modifies held(&o.mu), fields(zaptest/observer.LoggedEntry)
+//@   ensures !held(&o.mu) && len(result) == len(o.logs)
+
+//@ func (*zaptest/observer.ObservedLogs).TakeAll
+//@   props C09
+//@   flags nopanic
+//@   requires o != nil && !held(&o.mu)
+//@   modifies held(&o.mu), o.logs
+//@   ensures !held(&o.mu) && result == old(o.logs) && len(o.logs) == 0
+
+//@ callback (*zaptest/observer.ObservedLogs).Filter.keep
+//@   modifies $user
+
+//@ func (*zaptest/observer.ObservedLogs).Filter
+//@   props C09
+//@   flags nopanic
+//@   requires o != nil && !held(&o.mu) && keep != nil
+//@   modifies held(&o.mu), $user, fields(zaptest/observer.LoggedEntry)
+//@   ensures !held(&o.mu) && fresh(result)
+//@   loop 1 invariant 0 <= $idx && $idx <= len(o.logs) && held(&o.mu) && o.logs == old(o.logs)
+
+//@ func (*zaptest/observer.ObservedLogs).add
+//@   props C09
+//@   flags nopanic
+//@   requires o != nil && !held(&o.mu)
+//@   modifies held(&o.mu), o.logs, fields(zaptest/observer.LoggedEntry)
+//@   ensures !held(&o.mu) && len(o.logs) == old(len(o.logs)) + 1
